@@ -22,7 +22,7 @@ import (
 )
 
 const lpPacketOverhead = 1 + 3
-const pitTokenOverhead = 1 + 1 + 6
+const fragmentOverhead = 1 + 3
 const congestionMarkOverhead = 3 + 1 + 8
 
 const (
@@ -185,50 +185,6 @@ func sendPacket(l *NDNLPLinkService, out dispatch.OutPkt) {
 
 	now := time.Now()
 
-	effectiveMtu := l.transport.MTU() - l.headerOverhead
-	if pkt.PitToken != nil {
-		effectiveMtu -= pitTokenOverhead
-	}
-	if pkt.CongestionMark != nil {
-		effectiveMtu -= congestionMarkOverhead
-	}
-
-	// Fragmentation
-	var fragments []*spec.LpPacket
-	if len(wire) > effectiveMtu {
-		if !l.options.IsFragmentationEnabled {
-			core.LogInfo(l, "Attempted to send frame over MTU on link without fragmentation - DROP")
-			return
-		}
-
-		// Split up fragment
-		nFragments := int((len(wire) + effectiveMtu - 1) / effectiveMtu)
-		fragments = make([]*spec.LpPacket, nFragments)
-		reader := enc.NewBufferReader(wire)
-		for i := 0; i < nFragments; i++ {
-			readSize := effectiveMtu
-			if i == nFragments-1 {
-				readSize = len(wire) - effectiveMtu*(nFragments-1)
-			}
-
-			frag, err := reader.ReadWire(readSize)
-			if err != nil {
-				core.LogFatal(l, "Unexpected Wire reading error")
-			}
-			fragments[i] = &spec.LpPacket{Fragment: frag}
-		}
-	} else {
-		fragments = []*spec.LpPacket{{Fragment: enc.Wire{wire}}}
-	}
-
-	// Sequence
-	if len(fragments) > 1 {
-		for _, fragment := range fragments {
-			fragment.Sequence = utils.IdPtr(l.nextSequence)
-			l.nextSequence++
-		}
-	}
-
 	// Congestion marking
 	congestionMark := pkt.CongestionMark // from upstream
 	if congestionMarking {
@@ -248,8 +204,8 @@ func sendPacket(l *NDNLPLinkService, out dispatch.OutPkt) {
 		l.congestionCheck += uint64(len(wire)) // approx
 	}
 
-	// Send fragment(s)
-	for _, fragment := range fragments {
+	// Fields carried by every frame of this packet
+	fillHeader := func(fragment *spec.LpPacket) {
 		// PIT tokens
 		if len(out.PitToken) > 0 {
 			fragment.PitToken = out.PitToken
@@ -264,18 +220,78 @@ func sendPacket(l *NDNLPLinkService, out dispatch.OutPkt) {
 		if congestionMark != nil {
 			fragment.CongestionMark = congestionMark
 		}
-
+	}
+	encodeFrame := func(fragment *spec.LpPacket) enc.Wire {
 		pkt := &spec.Packet{
 			LpPacket: fragment,
 		}
 		encoder := spec.PacketEncoder{}
 		encoder.Init(pkt)
-		frameWire := encoder.Encode(pkt)
-		if frameWire == nil {
-			core.LogError(l, "Unable to encode fragment - DROP")
-			break
+		return encoder.Encode(pkt)
+	}
+
+	// A packet that fits is sent as a single frame
+	single := &spec.LpPacket{Fragment: enc.Wire{wire}}
+	fillHeader(single)
+	frames := []enc.Wire{encodeFrame(single)}
+	if frames[0] == nil {
+		core.LogError(l, "Unable to encode fragment - DROP")
+		return
+	}
+
+	// Fragmentation
+	if int(frames[0].Length()) > l.transport.MTU() {
+		if !l.options.IsFragmentationEnabled {
+			core.LogInfo(l, "Attempted to send frame over MTU on link without fragmentation - DROP")
+			return
 		}
 
+		// Payload per frame: the MTU less the largest size everything else in the frame can take
+		effectiveMtu := l.transport.MTU() - l.headerOverhead - fragmentOverhead
+		if len(out.PitToken) > 0 {
+			effectiveMtu -= 1 + 1 + len(out.PitToken)
+		}
+		if congestionMark != nil {
+			effectiveMtu -= congestionMarkOverhead
+		}
+		if effectiveMtu <= 0 {
+			core.LogInfo(l, "MTU too small to carry any payload - DROP")
+			return
+		}
+
+		// Split up fragment
+		nFragments := int((len(wire) + effectiveMtu - 1) / effectiveMtu)
+		frames = make([]enc.Wire, 0, nFragments)
+		reader := enc.NewBufferReader(wire)
+		for i := 0; i < nFragments; i++ {
+			readSize := effectiveMtu
+			if i == nFragments-1 {
+				readSize = len(wire) - effectiveMtu*(nFragments-1)
+			}
+
+			frag, err := reader.ReadWire(readSize)
+			if err != nil {
+				core.LogFatal(l, "Unexpected Wire reading error")
+			}
+			fragment := &spec.LpPacket{
+				Fragment:  frag,
+				Sequence:  utils.IdPtr(l.nextSequence),
+				FragIndex: utils.IdPtr(uint64(i)),
+				FragCount: utils.IdPtr(uint64(nFragments)),
+			}
+			l.nextSequence++
+			fillHeader(fragment)
+			frameWire := encodeFrame(fragment)
+			if frameWire == nil {
+				core.LogError(l, "Unable to encode fragment - DROP")
+				return
+			}
+			frames = append(frames, frameWire)
+		}
+	}
+
+	// Send frame(s)
+	for _, frameWire := range frames {
 		// Use preallocated buffer for outgoing frame
 		l.outFrame = l.outFrame[:0]
 		for _, b := range frameWire {
